@@ -1,7 +1,15 @@
 (** * File cache (fcache.c): proofs about the model in [FcacheChunk.v].
 
-    Main results (all for every history, every replacement / adjacency /
-    failure oracle, every policy; [clamp_eof = true], i.e. the repaired source):
+    The cache serves a set of [nfiles <= pgsz] files; the keys of both
+    sub-caches are [blkpos | fidx] and [fcache_key_injective_P/_M] (file and
+    block can be read back from the key) is what keeps the files apart: the
+    invariant [wf] says that every cached page / mapping belongs to the file
+    and block its key names ([fcache_fb_key_without_fidx_refuted]: without the
+    file index in the key a read of file 1 returns file 0's bytes).
+
+    Main results (all for every history over the files of the set, every
+    replacement / adjacency / failure oracle, every policy; [clamp_eof = true],
+    [fb_key_has_fidx = true], i.e. the source as it is):
     - [fcache_beyond_eof]: an observed get / pread / get_chunk answers the file's
       slice (zeros after EOF) or an excused error ([outcome_ok]); never a crash;
     - [fcache_policy_irrelevant]: within the file's pages it never answers NODATA;
@@ -522,14 +530,10 @@ Section StoreFacts.
 End StoreFacts.
 
 Section Proofs.
-  Variables pgshift order filesz : N.
-  Variable file : N -> N.
+  Variables pgshift order : N.
 
   Notation P := (pgsz pgshift).
   Notation M := (mmapsz pgshift order).
-  Notation sl := (FcacheChunk.sl filesz file).
-  Notation slice := (FcacheChunk.slice filesz file).
-  Notation pceil := (pageceil pgshift filesz).
 
   Lemma P_pos : 0 < P.
   Proof. unfold pgsz. apply N.neq_0_lt_0. apply N.pow_nonzero. discriminate. Qed.
@@ -590,6 +594,87 @@ Section Proofs.
     apply N.div_lt_upper_bound; [lia|].
     pose proof (fl_gt M M_pos a). rewrite M_mul in *. lia.
   Qed.
+
+  (** *** The cache keys [blkpos | fidx] *)
+
+  Lemma land_low n q f : f < 2 ^ n -> N.land (2 ^ n * q) f = 0.
+  Proof.
+    intro H. apply N.bits_inj. intro m. rewrite N.land_spec, N.bits_0.
+    rewrite (N.mul_comm (2 ^ n) q), <- N.shiftl_mul_pow2.
+    destruct (N.lt_ge_cases m n) as [L|L].
+    - now rewrite N.shiftl_spec_low.
+    - destruct (N.eq_dec f 0) as [->|Hf]; [now rewrite N.bits_0, Bool.andb_false_r|].
+      rewrite (N.bits_above_log2 f m), Bool.andb_false_r; [reflexivity|].
+      apply N.log2_lt_pow2; [lia|].
+      eapply N.lt_le_trans; [exact H|]. apply N.pow_le_mono_r; lia.
+  Qed.
+
+  Lemma lor_low n q f : f < 2 ^ n -> N.lor (2 ^ n * q) f = 2 ^ n * q + f.
+  Proof.
+    intro H. pose proof (land_low n q f H) as L.
+    now rewrite (N.add_nocarry_lxor _ _ L), (N.lxor_lor _ _ L).
+  Qed.
+
+  (** the key of a page of file [f]: both parts can be read back *)
+  Lemma key_decode_P a f :
+    f < P ->
+    let k := N.lor (align_down a P) f in
+    low_bits k P = f /\ align_down k P = align_down a P.
+  Proof.
+    intros Hf k. unfold k. rewrite (adP a). unfold pgsz in *. rewrite lor_low by exact Hf.
+    rewrite low_bits_pow2, align_down_pow2.
+    set (q := a / 2 ^ pgshift). assert (Hp : 2 ^ pgshift <> 0) by lia.
+    split.
+    - rewrite N.add_comm, N.mul_comm, N.mod_add by exact Hp. now apply N.mod_small.
+    - f_equal. rewrite N.add_comm, N.mul_comm, N.div_add by exact Hp.
+      rewrite N.div_small by exact Hf. reflexivity.
+  Qed.
+
+  (** the key of a mapping block of file [f] *)
+  Lemma key_decode_M a f :
+    f < P ->
+    let k := N.lor (align_down a M) f in
+    low_bits k M = f /\ align_down k M = align_down a M.
+  Proof.
+    intros Hf k. unfold k. rewrite (adM a). pose proof P_le_M as HPM. rewrite M_pow in *.
+    assert (Hf' : f < 2 ^ (pgshift + order)) by lia.
+    rewrite lor_low by exact Hf'.
+    rewrite low_bits_pow2, align_down_pow2.
+    set (q := a / 2 ^ (pgshift + order)). assert (Hp : 2 ^ (pgshift + order) <> 0) by lia.
+    split.
+    - rewrite N.add_comm, N.mul_comm, N.mod_add by exact Hp. now apply N.mod_small.
+    - f_equal. rewrite N.add_comm, N.mul_comm, N.div_add by exact Hp.
+      rewrite N.div_small by exact Hf'. reflexivity.
+  Qed.
+
+  (** the key determines the file and the block: what keeps the files of a set
+      apart in the two sub-caches *)
+  Lemma fcache_key_injective_P a1 f1 a2 f2 :
+    f1 < P -> f2 < P ->
+    N.lor (align_down a1 P) f1 = N.lor (align_down a2 P) f2 ->
+    f1 = f2 /\ align_down a1 P = align_down a2 P.
+  Proof.
+    intros H1 H2 E. destruct (key_decode_P a1 f1 H1) as [A1 B1].
+    destruct (key_decode_P a2 f2 H2) as [A2 B2]. cbv zeta in *. rewrite E in A1, B1.
+    split; congruence.
+  Qed.
+
+  Lemma fcache_key_injective_M a1 f1 a2 f2 :
+    f1 < P -> f2 < P ->
+    N.lor (align_down a1 M) f1 = N.lor (align_down a2 M) f2 ->
+    f1 = f2 /\ align_down a1 M = align_down a2 M.
+  Proof.
+    intros H1 H2 E. destruct (key_decode_M a1 f1 H1) as [A1 B1].
+    destruct (key_decode_M a2 f2 H2) as [A2 B2]. cbv zeta in *. rewrite E in A1, B1.
+    split; congruence.
+  Qed.
+
+  Section OneFile.
+  Variable filesz : N.
+  Variable file : N -> N.
+  Notation sl := (FcacheChunk.sl filesz file).
+  Notation slice := (FcacheChunk.slice filesz file).
+  Notation pceil := (pageceil pgshift filesz).
 
   (** *** What [fcache_get_mmap] computes for a page below the EOF page end *)
   Lemma nodata_beyond pos : filesz <= align_down pos P -> pceil <= pos.
@@ -687,22 +772,36 @@ Section Proofs.
     destruct (N.ltb_spec o pceil); [reflexivity|lia].
   Qed.
 
+  End OneFile.
+
   (** ** Invariants *)
 
-  Notation get_mmap := (fcache_get_mmap pgshift order filesz file true).
-  Notation get_read := (fcache_get_read pgshift filesz file).
-  Notation get := (fcache_get pgshift order filesz file true).
+  (** the file set: [nfiles] files ([fcache_new] refuses more than [pgsz]) *)
+  Variable nfiles : N.
+  Variable fsz : N -> N.
+  Variable fdata : N -> N -> N.
 
-  (** every cached read page holds the page's slice *)
+  (** every cached read page holds the slice of the page of the file that its
+      key names *)
   Definition fb_ok (s : store (list N)) : Prop :=
-    Forall (fun e => e_val e = slice (e_key e) P) (s_ents s).
+    Forall (fun e => e_val e =
+                     FcacheChunk.slice (fsz (low_bits (e_key e) P)) (fdata (low_bits (e_key e) P))
+                                       (align_down (e_key e) P) P) (s_ents s).
+
+  (** every cached mapping is the mapping of the block of the file that its key names *)
+  Definition mm_ok (s : store mcontent) : Prop :=
+    Forall (fun e => match e_val e with
+                     | MapOk f b => f = low_bits (e_key e) M /\ b = align_down (e_key e) M
+                     | MapFailed => True
+                     end) (s_ents s).
 
   Definition wf (st : state) : Prop :=
-    NoDup (keys (s_ents (st_mm st))) /\ NoDup (keys (s_ents (st_fb st))) /\ fb_ok (st_fb st).
+    NoDup (keys (s_ents (st_mm st))) /\ NoDup (keys (s_ents (st_fb st))) /\
+    fb_ok (st_fb st) /\ mm_ok (st_mm st).
 
   (** no cached MAP_FAILED *)
   Definition mm_clean (st : state) : Prop :=
-    Forall (fun e => e_val e = MapOk) (s_ents (st_mm st)).
+    Forall (fun e => e_val e <> MapFailed) (s_ents (st_mm st)).
 
   Definition suffix {A} (l' l : list A) : Prop := exists p, l = p ++ l'.
 
@@ -826,14 +925,7 @@ Section Proofs.
       unfold orc_le. cbn. rewrite E. repeat split; auto using suffix_refl, suffix_tail.
   Qed.
 
-  (** ** One [fcache_get] *)
-
-  (** what the caller may rely on for an entry obtained at [pos] *)
-  Definition good_fce (pos : N) (f : fce) : Prop :=
-    1 <= fc_len f /\
-    fc_view f = map Byte (slice pos (fc_len f)) /\
-    align_down pos P + P <= pos + fc_len f /\
-    (pos < pceil -> pos + fc_len f <= pceil).
+  (** ** One [fcache_get], on file [fidx] *)
 
   Lemma store_get_cases {C} k bits (s : store C) :
     match store_get k bits s with
@@ -848,23 +940,53 @@ Section Proofs.
     - destruct (N.leb_spec (s_cap s) (nref s)); auto.
   Qed.
 
+  Lemma wf_set_mm st mm' :
+    wf st -> NoDup (keys (s_ents mm')) -> mm_ok mm' -> wf (set_mm st mm').
+  Proof. intros (A & B & C & D) H1 H2. repeat split; assumption. Qed.
+
+  Lemma wf_set_fb st fb' :
+    wf st -> NoDup (keys (s_ents fb')) -> fb_ok fb' -> wf (set_fb st fb').
+  Proof. intros (A & B & C & D) H1 H2. repeat split; assumption. Qed.
+
+  Section OneIdx.
+  Variable fidx : N.
+  Hypothesis Hfidx : fidx < P.
+
+  Notation filesz := (fsz fidx).
+  Notation file := (fdata fidx).
+  Notation slice := (FcacheChunk.slice (fsz fidx) (fdata fidx)).
+  Notation pceil := (pageceil pgshift (fsz fidx)).
+  Notation get_mmap := (fcache_get_mmap pgshift order fsz fdata true fidx).
+  Notation get_read := (fcache_get_read pgshift fsz fdata true fidx).
+  Notation get := (fcache_get pgshift order fsz fdata true true fidx).
+
+  (** what the caller may rely on for an entry obtained at [pos] *)
+  Definition good_fce (pos : N) (f : fce) : Prop :=
+    1 <= fc_len f /\
+    fc_view f = map Byte (slice pos (fc_len f)) /\
+    align_down pos P + P <= pos + fc_len f /\
+    (pos < pceil -> pos + fc_len f <= pceil).
+
+  Lemma blk_off pos : align_down pos M + low_bits pos M = pos.
+  Proof. rewrite adM, lbM. apply (fl_mod M M_pos). Qed.
+
   Lemma mmap_found_good pos k full :
     align_down pos P < filesz ->
-    good_fce pos (mkFce MM k (mmap_len pos)
-                        (map (mm_byte pgshift filesz file) (offs pos (mmap_len pos))) full).
+    good_fce pos (mkFce MM k (mmap_len filesz pos)
+                        (map (mm_byte pgshift filesz file)
+                             (offs (align_down pos M + low_bits pos M) (mmap_len filesz pos))) full).
   Proof.
-    intro H. destruct (mmap_len_spec pos H) as (L1 & L2 & L3 & L4).
+    intro H. rewrite blk_off. destruct (mmap_len_spec filesz pos H) as (L1 & L2 & L3 & L4).
     unfold good_fce. cbn [fc_len fc_view]. repeat split; auto.
     now apply mm_view_slice.
   Qed.
 
-  Lemma wf_set_mm st mm' :
-    wf st -> NoDup (keys (s_ents mm')) -> wf (set_mm st mm').
-  Proof. intros (A & B & C) H. repeat split; assumption. Qed.
-
-  Lemma wf_set_fb st fb' :
-    wf st -> NoDup (keys (s_ents fb')) -> fb_ok fb' -> wf (set_fb st fb').
-  Proof. intros (A & B & C) H1 H2. repeat split; assumption. Qed.
+  Lemma mm_ok_In s e : mm_ok s -> In e (s_ents s) ->
+    match e_val e with
+    | MapOk f b => f = low_bits (e_key e) M /\ b = align_down (e_key e) M
+    | MapFailed => True
+    end.
+  Proof. unfold mm_ok. rewrite Forall_forall. intros H Hi. exact (H e Hi). Qed.
 
   Lemma get_mmap_spec st pos r st' :
     get_mmap st pos = (r, st') -> wf st ->
@@ -889,22 +1011,28 @@ Section Proofs.
     destruct (N.leb_spec filesz (align_down pos P)) as [Hnd|Hlt].
     { injection H as <- <-. split; [apply frame_refl|]. splits; auto.
       now apply nodata_beyond. }
-    cbn [andb] in H. fold (mmap_len pos) in H.
+    cbn [andb] in H. fold (mmap_len filesz pos) in H.
+    destruct (key_decode_M pos fidx Hfidx) as [Dk1 Dk2]. cbv zeta in Dk1, Dk2.
     set (blk := align_down pos M) in *.
+    set (key := N.lor blk fidx) in *.
     destruct (pop_ev st) as [ev st0] eqn:Epop.
     destruct (pop_ev_frame _ _ _ Epop) as (F0 & Em0 & Ef0 & Ep0 & El0).
     assert (Hwf0 : wf st0) by (apply (fr_wf _ _ F0 Hwf)).
-    pose proof (store_get_cases blk ev (st_mm st0)) as Hc.
-    destruct (store_get blk ev (st_mm st0)) as [c mm'| |mm'].
+    pose proof (store_get_cases key ev (st_mm st0)) as Hc.
+    destruct (store_get key ev (st_mm st0)) as [c mm'| |mm'].
     - (* hit *)
       destruct Hc as (e & Hl & -> & ->).
       destruct (lookup_some _ _ _ Hl) as [Hin Hk].
-      assert (Hkeys : In blk (keys (s_ents (st_mm st0)))).
+      assert (Hkeys : In key (keys (s_ents (st_mm st0)))).
       { rewrite <- Hk. unfold keys. now apply in_map. }
-      assert (Hw1 : wf (set_mm st0 (mkStore (s_cap (st_mm st0)) (incr blk (s_ents (st_mm st0)))))).
-      { apply wf_set_mm; [exact Hwf0|]. sproj. rewrite keys_incr. apply Hwf0. }
-      destruct (e_val e) eqn:Ev.
-      + injection H as <- <-. split; [|sproj; splits; auto].
+      assert (Hw1 : wf (set_mm st0 (mkStore (s_cap (st_mm st0)) (incr key (s_ents (st_mm st0)))))).
+      { apply wf_set_mm; [exact Hwf0| |]; sproj.
+        - rewrite keys_incr. apply Hwf0.
+        - unfold mm_ok. sproj. apply Forall_incr; [auto|apply Hwf0]. }
+      pose proof (mm_ok_In _ e (proj2 (proj2 (proj2 Hwf0))) Hin) as Hcont.
+      destruct (e_val e) as [mf mblk|] eqn:Ev.
+      + rewrite Hk, Dk1, Dk2 in Hcont. destruct Hcont as [-> ->].
+        injection H as <- <-. split; [|sproj; splits; auto].
         * apply (frame_trans _ _ _ F0). constructor; sproj; auto using orc_le_refl.
           intro Hcl. left. unfold mm_clean. sproj. apply Forall_incr; auto.
         * now apply mmap_found_good.
@@ -930,24 +1058,31 @@ Section Proofs.
       pose proof (lookup_none _ _ Hl) as Habs.
       pose proof (make_room_absent ev _ _ Habs) as Habs'.
       pose proof (make_room_NoDup ev _ (proj1 Hwf0)) as Hnd'.
-      assert (Hw1 : forall c rf, wf (set_mm st1 (mkStore (s_cap (st_mm st0))
-                     (s_ents (make_room ev (st_mm st0)) ++ [mkEntry blk c rf])))).
-      { intros c rf. apply wf_set_mm; [apply (fr_wf _ _ F1 Hwf0)|]. sproj.
-        now apply NoDup_snoc_entry. }
-      assert (Fr : forall c rf, (c = MapFailed -> failed = true) ->
+      assert (Hmk : mm_ok (make_room ev (st_mm st0))).
+      { destruct Hwf0 as (_ & _ & _ & Hok). unfold mm_ok in *. rewrite Forall_forall in *.
+        intros x Hx. apply Hok. eapply make_room_In; eauto. }
+      assert (Hw1 : forall c rf, (c = MapFailed \/ c = MapOk fidx blk) ->
+                     wf (set_mm st1 (mkStore (s_cap (st_mm st0))
+                     (s_ents (make_room ev (st_mm st0)) ++ [mkEntry key c rf])))).
+      { intros c rf Hc. apply wf_set_mm; [apply (fr_wf _ _ F1 Hwf0)| |]; sproj.
+        - now apply NoDup_snoc_entry.
+        - unfold mm_ok. sproj. apply Forall_app. split; [exact Hmk|].
+          constructor; [|constructor]. cbn [e_val e_key].
+          destruct Hc as [->| ->]; [exact I|]. now rewrite Dk1, Dk2. }
+      assert (Fr : forall c rf, (c = MapFailed /\ failed = true \/ c = MapOk fidx blk) ->
                 frame st (set_mm st1 (mkStore (s_cap (st_mm st0))
-                     (s_ents (make_room ev (st_mm st0)) ++ [mkEntry blk c rf])))).
+                     (s_ents (make_room ev (st_mm st0)) ++ [mkEntry key c rf])))).
       { intros c rf Hc. apply (frame_trans _ _ _ F0). constructor; sproj.
-        - auto.
+        - intros _. apply Hw1. tauto.
         - reflexivity.
         - now rewrite Ef1.
         - apply (fr_orc _ _ F1).
-        - intro Hcl. destruct c.
+        - intro Hcl. destruct Hc as [[-> Hf]| ->].
+          + right. now apply Hbit.
           + left. unfold mm_clean. sproj. apply Forall_app. split.
             * unfold mm_clean in Hcl. rewrite Forall_forall in *.
               intros x Hx. apply Hcl. eapply make_room_In; eauto.
-            * constructor; [reflexivity|constructor].
-          + right. apply Hbit. now apply Hc. }
+            * constructor; [discriminate|constructor]. }
       destruct failed.
       + (* MAP_FAILED is cached, unreferenced *)
         injection H as <- <-. unfold store_put, store_insert. sproj.
@@ -960,7 +1095,7 @@ Section Proofs.
           rewrite make_room_rcl by apply Hwf0. now rewrite Em0.
         * rewrite !nref_nrefl. sproj. rewrite nrefl_snoc0. unfold nrefl.
           rewrite make_room_held. now rewrite Em0.
-      + injection H as <- <-. split; [apply (Fr MapOk 1); discriminate|].
+      + injection H as <- <-. split; [apply (Fr (MapOk fidx blk) 1); now right|].
         sproj. rewrite Ef1, Ep1, El1. splits; auto.
         * now apply mmap_found_good.
         * intro k. rewrite !refcount_rcl. sproj. rewrite rcl_insert by exact Habs'.
@@ -969,8 +1104,8 @@ Section Proofs.
           rewrite make_room_held. rewrite Em0. lia.
   Qed.
 
-  Lemma read_found_good pos :
-    good_fce pos (mkFce FB (align_down pos P) (P - low_bits pos P)
+  Lemma read_found_good pos k :
+    good_fce pos (mkFce FB k (P - low_bits pos P)
       (map Byte (firstn (N.to_nat (P - low_bits pos P))
                         (skipn (N.to_nat (low_bits pos P)) (slice (align_down pos P) P)))) true).
   Proof.
@@ -982,6 +1117,11 @@ Section Proofs.
     - rewrite adP. lia.
     - intro Hlt. apply below_ceil_conv in Hlt. apply below_ceil in Hlt. rewrite adP in Hlt. lia.
   Qed.
+
+  Lemma fb_ok_In s e : fb_ok s -> In e (s_ents s) ->
+    e_val e = FcacheChunk.slice (fsz (low_bits (e_key e) P)) (fdata (low_bits (e_key e) P))
+                                (align_down (e_key e) P) P.
+  Proof. unfold fb_ok. rewrite Forall_forall. intros H Hi. exact (H e Hi). Qed.
 
   Lemma get_read_spec st pos r st' :
     get_read st pos = (r, st') -> wf st ->
@@ -1002,20 +1142,21 @@ Section Proofs.
     end.
   Proof.
     unfold fcache_get_read. intros H Hwf.
+    destruct (key_decode_P pos fidx Hfidx) as [Dk1 Dk2]. cbv zeta in Dk1, Dk2.
     set (blk := align_down pos P) in *.
+    set (key := N.lor blk fidx) in *.
     destruct (pop_ev st) as [ev st0] eqn:Epop.
     destruct (pop_ev_frame _ _ _ Epop) as (F0 & Em0 & Ef0 & Ep0 & El0).
     assert (Hwf0 : wf st0) by (apply (fr_wf _ _ F0 Hwf)).
-    pose proof (store_get_cases blk ev (st_fb st0)) as Hc.
-    destruct (store_get blk ev (st_fb st0)) as [c fb'| |fb'].
+    pose proof (store_get_cases key ev (st_fb st0)) as Hc.
+    destruct (store_get key ev (st_fb st0)) as [c fb'| |fb'].
     - (* hit *)
       destruct Hc as (e & Hl & -> & ->).
       destruct (lookup_some _ _ _ Hl) as [Hin Hk].
-      assert (Hkeys : In blk (keys (s_ents (st_fb st0)))).
+      assert (Hkeys : In key (keys (s_ents (st_fb st0)))).
       { rewrite <- Hk. unfold keys. now apply in_map. }
       assert (Hv : e_val e = slice blk P).
-      { destruct Hwf0 as (_ & _ & Hok). unfold fb_ok in Hok. rewrite Forall_forall in Hok.
-        rewrite <- Hk. now apply Hok. }
+      { rewrite (fb_ok_In _ e (proj1 (proj2 (proj2 Hwf0))) Hin). now rewrite Hk, Dk1, Dk2. }
       injection H as <- <-. split; [|sproj; splits; auto].
       + apply (frame_trans _ _ _ F0). constructor; sproj; auto using orc_le_refl.
         intro W. apply wf_set_fb; [exact W| |]; sproj.
@@ -1034,7 +1175,7 @@ Section Proofs.
       pose proof (lookup_none _ _ Hl) as Habs.
       assert (Hwf1 : wf st1) by (apply (fr_wf _ _ F1 Hwf0)).
       assert (Hok : fb_ok (make_room ev (st_fb st0))).
-      { destruct Hwf0 as (_ & _ & Hok). unfold fb_ok in *. rewrite Forall_forall in *.
+      { destruct Hwf0 as (_ & _ & Hok & _). unfold fb_ok in *. rewrite Forall_forall in *.
         intros x Hx. apply Hok. eapply make_room_In; eauto. }
       assert (F01 : frame st st1) by (eapply frame_trans; eauto).
       destruct failed.
@@ -1051,7 +1192,8 @@ Section Proofs.
           -- intro W. apply wf_set_fb; [exact W| |]; sproj.
              ++ apply NoDup_insert; [apply make_room_NoDup; apply Hwf0|now apply make_room_absent].
              ++ unfold fb_ok. sproj. apply Forall_app. split; [exact Hok|].
-                constructor; [|constructor]. cbn [e_val e_key]. apply read_page_slice.
+                constructor; [|constructor]. cbn [e_val e_key]. rewrite Dk1, Dk2.
+                apply read_page_slice.
           -- now rewrite Ef1.
         * rewrite read_page_slice. apply read_found_good.
         * intro k. rewrite !refcount_rcl. sproj. rewrite rcl_insert by now apply make_room_absent.
@@ -1083,9 +1225,12 @@ Section Proofs.
     (forall w k, rc w k (fcache_put st f) = rc w k st - delta f w k) /\
     (forall w, nr w (fcache_put st f) <= nr w st).
   Proof.
+    clear Hfidx.
     unfold fcache_put, delta. destruct (fc_which f); sproj; splits; auto.
     - constructor; sproj; auto using orc_le_refl.
-      + intro W. apply wf_set_mm; [exact W|]. sproj. rewrite keys_decr. apply W.
+      + intro W. apply wf_set_mm; [exact W| |]; sproj.
+        * rewrite keys_decr. apply W.
+        * unfold mm_ok. sproj. apply Forall_decr; [auto|apply W].
       + intro Hc. left. unfold mm_clean. sproj. apply Forall_decr; auto.
     - intros [|] k; unfold rc; sproj; rewrite ?refcount_rcl; sproj; cbn [same_w andb].
       + apply rcl_decr.
@@ -1234,7 +1379,8 @@ Section Proofs.
 
   Lemma mm_clean_dec st : {mm_clean st} + {~ mm_clean st}.
   Proof.
-    unfold mm_clean. apply Forall_dec. intro e. destruct (e_val e); [now left|right; discriminate].
+    unfold mm_clean. apply Forall_dec. intro e.
+    destruct (e_val e); [left; discriminate|right; intro H; now apply H].
   Qed.
 
   (** an error status that is not the file's fault needs an excuse *)
@@ -1291,7 +1437,7 @@ Section Proofs.
       + right. specialize (Hn MM). unfold capw, nr in *. lia.
   Qed.
 
-  Notation pread_loop := (pread_loop pgshift order filesz file true).
+  Notation pread_loop := (pread_loop pgshift order fsz fdata true true fidx).
 
   Definition pread_result_ok (st0 : state) (pos len : N) (acc : list N) (r : outcome) : Prop :=
     match r with
@@ -1358,10 +1504,11 @@ Section Proofs.
     match l with [] => 0 | f :: t => delta f w k + hc t w k end.
 
   Lemma hc_app a b w k : hc (a ++ b) w k = hc a w k + hc b w k.
-  Proof. induction a as [|f a IH]; cbn [app hc]; [reflexivity|]. rewrite IH. lia. Qed.
+  Proof. clear Hfidx. induction a as [|f a IH]; cbn [app hc]; [reflexivity|]. rewrite IH. lia. Qed.
 
   Lemma hc_rev l w k : hc (rev l) w k = hc l w k.
   Proof.
+    clear Hfidx.
     induction l as [|f l IH]; cbn [rev hc]; [reflexivity|]. rewrite hc_app, IH. cbn [hc]. lia.
   Qed.
 
@@ -1372,6 +1519,7 @@ Section Proofs.
     (forall w k, rc w k st' = rc w k st - hc l w k) /\
     (forall w, nr w st' <= nr w st).
   Proof.
+    clear Hfidx.
     induction l as [|f l IH]; intro st; cbn [fold_left hc].
     - splits; auto using frame_refl; intros; lia.
     - destruct (put_spec st f) as (Fp & Pp & Lp & Op & Rp & Np).
@@ -1389,6 +1537,7 @@ Section Proofs.
     (forall w k, rc w k st' = rc w k st - hc l w k) /\
     (forall w, nr w st' <= nr w st).
   Proof.
+    clear Hfidx.
     unfold put_all. destruct (fold_put_spec (rev l) st) as (F & Pq & Lq & Oq & Rq & Nq).
     splits; auto. intros w k. now rewrite Rq, hc_rev.
   Qed.
@@ -1398,12 +1547,14 @@ Section Proofs.
 
   Lemma adP_mono a b : a <= b -> P * (a / P) <= P * (b / P).
   Proof.
+    clear Hfidx.
     intro H. apply N.mul_le_mono_l. apply N.div_le_mono; [|exact H].
     pose proof P_pos. lia.
   Qed.
 
   Lemma adP_lower m x : P * m <= x -> P * m <= P * (x / P).
   Proof.
+    clear Hfidx.
     intro H. apply N.mul_le_mono_l. apply N.div_le_lower_bound; [|exact H].
     pose proof P_pos. lia.
   Qed.
@@ -1417,6 +1568,7 @@ Section Proofs.
     align_down pos0 P + P * j <= align_down pos P ->
     j < est pos0 len0.
   Proof.
+    clear Hfidx.
     intros Hr Hs Hj. unfold est. rewrite !adP in *.
     assert (Hm : P * (pos / P) <= P * ((pos0 + len0 - 1) / P)) by (apply adP_mono; lia).
     assert (Hd : P * j <= P * ((pos0 + len0 - 1) / P) - P * (pos0 / P)) by lia.
@@ -1426,6 +1578,7 @@ Section Proofs.
 
   Lemma est_le pos0 len0 : 0 < len0 -> est pos0 len0 <= len0 / P + 2.
   Proof.
+    clear Hfidx.
     intro H. unfold est. rewrite !adP.
     pose proof P_pos as HP.
     assert ((P * ((pos0 + len0 - 1) / P) - P * (pos0 / P)) / P <= len0 / P + 1); [|lia].
@@ -1491,7 +1644,7 @@ Section Proofs.
     rewrite slice_app. do 2 f_equal. lia.
   Qed.
 
-  Notation chunk_loop := (FcacheChunk.chunk_loop pgshift order filesz file true).
+  Notation chunk_loop := (FcacheChunk.chunk_loop pgshift order fsz fdata true true fidx).
 
   Section ChunkLoop.
     (** [st0]: state when the loop is entered; [Lpre]: live allocations before the call *)
@@ -1737,11 +1890,12 @@ Section Proofs.
 
   (** *** [fcache_get_chunk] / [fcache_put_chunk] *)
 
-  Notation get_chunk := (fcache_get_chunk pgshift order filesz file true).
+  Notation get_chunk := (fcache_get_chunk pgshift order fsz fdata true true fidx).
 
   Lemma put_chunk_frame st c :
     frame st (fcache_put_chunk st c) /\ st_policy (fcache_put_chunk st c) = st_policy st.
   Proof.
+    clear Hfidx.
     unfold fcache_put_chunk. destruct (put_all_spec st (ch_held c)) as (Fp & Pp & _).
     destruct (ch_geom c).
     - split; [apply frame_refl|reflexivity].
@@ -1865,9 +2019,7 @@ Section Proofs.
 
   (** ** Whole operations and histories *)
 
-  Notation pread := (fcache_pread pgshift order filesz file true).
-  Notation step := (FcacheChunk.step pgshift order filesz file true).
-  Notation run := (FcacheChunk.run pgshift order filesz file true).
+  Notation pread := (fcache_pread pgshift order fsz fdata true true fidx).
 
   Lemma pread_spec st pos len r st' :
     wf st -> pread st pos len = (r, st') ->
@@ -1879,6 +2031,30 @@ Section Proofs.
     eapply pread_loop_spec with (st0 := st) in H; auto using frame_refl.
     destruct H as (F & L & _ & R & Hr). splits; auto.
   Qed.
+
+  End OneIdx.
+
+  (** [fcache_new] refuses more than [pgsz] files: a file index fits below the
+      page-aligned block position in a key *)
+  Hypothesis Hnfiles : nfiles <= P.
+
+  Lemma lt_files f : f < nfiles -> f < P.
+  Proof. intro H. pose proof Hnfiles. lia. Qed.
+
+  Notation get := (fcache_get pgshift order fsz fdata true true).
+  Notation pread := (fcache_pread pgshift order fsz fdata true true).
+  Notation get_chunk := (fcache_get_chunk pgshift order fsz fdata true true).
+  Notation step := (FcacheChunk.step pgshift order fsz fdata true true).
+  Notation run := (FcacheChunk.run pgshift order fsz fdata true true).
+  Notation slicef f := (FcacheChunk.slice (fsz f) (fdata f)).
+  Notation pceilf f := (pageceil pgshift (fsz f)).
+
+  (** the file index of an operation is one of the set's *)
+  Definition op_valid (o : op) : Prop :=
+    match o with
+    | OpGet f _ _ | OpPread f _ _ _ | OpChunk f _ _ _ | OpChunkHold f _ _ _ => f < nfiles
+    | _ => True
+    end.
 
   Lemma wf_init cm cf : wf (init_state cm cf).
   Proof. repeat split; try constructor. Qed.
@@ -1898,28 +2074,29 @@ Section Proofs.
   Lemma keeps_trans a b c : keeps a b -> keeps b c -> keeps a c.
   Proof. intros [_ C1] [W2 C2]. split; [exact W2|]. intro w. now rewrite C2. Qed.
 
-  Lemma step_keeps m o r m' : wf (m_st m) -> step m o = (r, m') -> keeps (m_st m) (m_st m').
+  Lemma step_keeps m o r m' :
+    op_valid o -> wf (m_st m) -> step m o = (r, m') -> keeps (m_st m) (m_st m').
   Proof.
-    intros W H. destruct o as [pos orc|h|pos len orc|pos len orc|pos len orc|h|p];
-      cbn [FcacheChunk.step] in H.
-    - destruct (get (set_orc (m_st m) orc) pos) as [g st1] eqn:Eg.
-      destruct (get_spec _ _ _ _ Eg (wf_set_orc _ orc W)) as (F & _).
+    intros Hv W H. destruct o as [fi pos orc|h|fi pos len orc|fi pos len orc|fi pos len orc|h|p];
+      cbn [FcacheChunk.step op_valid] in H, Hv.
+    - destruct (get fi (set_orc (m_st m) orc) pos) as [g st1] eqn:Eg.
+      destruct (get_spec fi (lt_files _ Hv) _ _ _ _ Eg (wf_set_orc _ orc W)) as (F & _).
       destruct g; injection H as <- <-; cbn [m_st];
         apply (frame_keeps _ _ F (wf_set_orc _ orc W)).
     - destruct (nth_error (m_fces m) h) as [[f|]|]; injection H as <- <-;
         try (split; [exact W|reflexivity]).
       cbn [m_st]. destruct (put_spec (m_st m) f) as (F & _). now apply frame_keeps.
-    - destruct (pread (set_orc (m_st m) orc) pos len) as [r1 st1] eqn:Ep.
-      destruct (pread_spec _ _ _ _ _ (wf_set_orc _ orc W) Ep) as (F & _).
+    - destruct (pread fi (set_orc (m_st m) orc) pos len) as [r1 st1] eqn:Ep.
+      destruct (pread_spec fi (lt_files _ Hv) _ _ _ _ _ (wf_set_orc _ orc W) Ep) as (F & _).
       injection H as <- <-. cbn [m_st]. apply (frame_keeps _ _ F (wf_set_orc _ orc W)).
-    - destruct (get_chunk (set_orc (m_st m) orc) pos len) as [c st1] eqn:Ec.
-      destruct (get_chunk_spec _ _ _ _ _ (wf_set_orc _ orc W) Ec) as (F & _).
+    - destruct (get_chunk fi (set_orc (m_st m) orc) pos len) as [c st1] eqn:Ec.
+      destruct (get_chunk_spec fi (lt_files _ Hv) _ _ _ _ _ (wf_set_orc _ orc W) Ec) as (F & _).
       pose proof (frame_keeps _ _ F (wf_set_orc _ orc W)) as K1.
       destruct c; injection H as <- <-; cbn [m_st]; auto.
       destruct (put_chunk_frame st1 c) as [Fc _].
       eapply keeps_trans; [exact K1|]. apply (frame_keeps _ _ Fc). apply K1.
-    - destruct (get_chunk (set_orc (m_st m) orc) pos len) as [c st1] eqn:Ec.
-      destruct (get_chunk_spec _ _ _ _ _ (wf_set_orc _ orc W) Ec) as (F & _).
+    - destruct (get_chunk fi (set_orc (m_st m) orc) pos len) as [c st1] eqn:Ec.
+      destruct (get_chunk_spec fi (lt_files _ Hv) _ _ _ _ _ (wf_set_orc _ orc W) Ec) as (F & _).
       pose proof (frame_keeps _ _ F (wf_set_orc _ orc W)) as K1.
       destruct c; injection H as <- <-; cbn [m_st]; auto.
     - destruct (nth_error (m_chunks m) h) as [[c|]|]; injection H as <- <-;
@@ -1928,46 +2105,50 @@ Section Proofs.
     - injection H as <- <-. cbn [m_st]. split; [exact W|reflexivity].
   Qed.
 
-  Lemma step_wf m o r m' : wf (m_st m) -> step m o = (r, m') -> wf (m_st m').
-  Proof. intros W H. apply (step_keeps _ _ _ _ W H). Qed.
+  Lemma step_wf m o r m' : op_valid o -> wf (m_st m) -> step m o = (r, m') -> wf (m_st m').
+  Proof. intros Hv W H. apply (step_keeps _ _ _ _ Hv W H). Qed.
 
   Lemma run_keeps h : forall m outs m',
-    wf (m_st m) -> run m h = (outs, m') -> keeps (m_st m) (m_st m').
+    Forall op_valid h -> wf (m_st m) -> run m h = (outs, m') -> keeps (m_st m) (m_st m').
   Proof.
-    induction h as [|o h IH]; intros m outs m' W H; cbn [FcacheChunk.run] in H.
+    induction h as [|o h IH]; intros m outs m' Hh W H; cbn [FcacheChunk.run] in H.
     - injection H as <- <-. split; [exact W|reflexivity].
-    - destruct (step m o) as [r m1] eqn:Es. pose proof (step_keeps _ _ _ _ W Es) as K1.
+    - inversion Hh as [|? ? Hv Hh']; subst.
+      destruct (step m o) as [r m1] eqn:Es. pose proof (step_keeps _ _ _ _ Hv W Es) as K1.
       destruct (crashed r).
       + injection H as <- <-. exact K1.
       + destruct (run m1 h) as [rs m2] eqn:Er. injection H as <- <-.
-        eapply keeps_trans; [exact K1|]. eapply IH; [apply K1|exact Er].
+        eapply keeps_trans; [exact K1|]. eapply IH; [exact Hh'|apply K1|exact Er].
   Qed.
 
-  Lemma run_wf h m outs m' : wf (m_st m) -> run m h = (outs, m') -> wf (m_st m').
-  Proof. intros W H. apply (run_keeps h _ _ _ W H). Qed.
+  Lemma run_wf h m outs m' :
+    Forall op_valid h -> wf (m_st m) -> run m h = (outs, m') -> wf (m_st m').
+  Proof. intros Hh W H. apply (run_keeps h _ _ _ Hh W H). Qed.
 
-  (** states a history can reach from the empty caches *)
+  (** states a history (over the files of the set) can reach from the empty caches *)
   Definition reachable (m : machine) : Prop :=
-    exists cap_mm cap_fb h outs, run (init_machine cap_mm cap_fb) h = (outs, m).
+    exists cap_mm cap_fb h outs,
+      Forall op_valid h /\ run (init_machine cap_mm cap_fb) h = (outs, m).
 
   Lemma reachable_wf m : reachable m -> wf (m_st m).
   Proof.
-    intros (cm & cf & h & outs & H). eapply run_wf; [|exact H]. apply wf_init.
+    intros (cm & cf & h & outs & Hh & H). eapply run_wf; [exact Hh| |exact H]. apply wf_init.
   Qed.
 
   (** *** The observed call *)
 
   Definition op_oracle (o : op) : oracle :=
     match o with
-    | OpGet _ orc | OpPread _ _ orc | OpChunk _ _ orc | OpChunkHold _ _ orc => orc
+    | OpGet _ _ orc | OpPread _ _ _ orc | OpChunk _ _ _ orc | OpChunkHold _ _ _ orc => orc
     | _ => no_oracle
     end.
 
   (** the range lies within the pages of the file *)
   Definition in_file (o : op) : Prop :=
     match o with
-    | OpPread pos len _ | OpChunk pos len _ | OpChunkHold pos len _ => pos + len <= pceil
-    | OpGet pos _ => pos < pceil
+    | OpPread f pos len _ | OpChunk f pos len _ | OpChunkHold f pos len _ =>
+      pos + len <= pceilf f
+    | OpGet f pos _ => pos < pceilf f
     | _ => False
     end.
 
@@ -1981,51 +2162,52 @@ Section Proofs.
   Definition outcome_ok (st : state) (o : op) (r : outcome) : Prop :=
     let st0 := set_orc st (op_oracle o) in
     match o with
-    | OpPread pos len _ =>
+    | OpPread f pos len _ =>
       match r with
-      | OutData bs _ => bs = slice pos len
-      | OutErr s => op_err_ok st0 (pceil < pos + len) 0 s
+      | OutData bs _ => bs = slicef f pos len
+      | OutErr s => op_err_ok st0 (pceilf f < pos + len) 0 s
       | _ => False
       end
-    | OpChunk pos len _ | OpChunkHold pos len _ =>
+    | OpChunk f pos len _ | OpChunkHold f pos len _ =>
       match r with
-      | OutData bs _ => bs = slice pos len
-      | OutErr s => chunk_err_ok st0 pos len s
+      | OutData bs _ => bs = slicef f pos len
+      | OutErr s => chunk_err_ok f st0 pos len s
       | _ => False
       end
-    | OpGet pos _ =>
+    | OpGet f pos _ =>
       match r with
       | OutData bs _ =>
         let l := N.of_nat (length bs) in
-        1 <= l /\ bs = slice pos l /\ (pos < pceil -> pos + l <= pceil)
-      | OutErr s => op_err_ok st0 (pceil <= pos) 0 s
+        1 <= l /\ bs = slicef f pos l /\ (pos < pceilf f -> pos + l <= pceilf f)
+      | OutErr s => op_err_ok st0 (pceilf f <= pos) 0 s
       | _ => False
       end
     | _ => True
     end.
 
-  Lemma step_outcome_ok m o : wf (m_st m) -> outcome_ok (m_st m) o (fst (step m o)).
+  Lemma step_outcome_ok m o :
+    op_valid o -> wf (m_st m) -> outcome_ok (m_st m) o (fst (step m o)).
   Proof.
-    intro W. destruct o as [pos orc|h|pos len orc|pos len orc|pos len orc|h|p];
-      cbn [outcome_ok op_oracle FcacheChunk.step]; auto.
-    - destruct (get (set_orc (m_st m) orc) pos) as [g st1] eqn:Eg.
-      destruct (get_spec _ _ _ _ Eg (wf_set_orc _ orc W)) as (F & _ & _ & Hs & _).
+    intros Hv W. destruct o as [fi pos orc|h|fi pos len orc|fi pos len orc|fi pos len orc|h|p];
+      cbn [outcome_ok op_oracle FcacheChunk.step op_valid] in *; auto.
+    - destruct (get fi (set_orc (m_st m) orc) pos) as [g st1] eqn:Eg.
+      destruct (get_spec fi (lt_files _ Hv) _ _ _ _ Eg (wf_set_orc _ orc W)) as (F & _ & _ & Hs & _).
       destruct g as [f|s]; cbn [fst].
-      + destruct Hs as (L1 & Hv & _ & Hc). rewrite Hv, collect_Byte.
+      + destruct Hs as (L1 & Hvw & _ & Hc). rewrite Hvw, collect_Byte.
         rewrite slice_length, N2Nat.id. splits; auto.
-      + apply get_err_ok with (st := set_orc (m_st m) orc) (pos := pos);
-          auto using frame_refl.
+      + apply get_err_ok with (fidx := fi) (st := set_orc (m_st m) orc) (pos := pos);
+          auto using frame_refl, lt_files.
         intros w. lia.
-    - destruct (pread (set_orc (m_st m) orc) pos len) as [r1 st1] eqn:Ep.
-      destruct (pread_spec _ _ _ _ _ (wf_set_orc _ orc W) Ep) as (_ & _ & _ & Hr).
+    - destruct (pread fi (set_orc (m_st m) orc) pos len) as [r1 st1] eqn:Ep.
+      destruct (pread_spec fi (lt_files _ Hv) _ _ _ _ _ (wf_set_orc _ orc W) Ep) as (_ & _ & _ & Hr).
       cbn [fst]. unfold pread_result_ok in Hr. destruct r1; auto. apply Hr.
-    - destruct (get_chunk (set_orc (m_st m) orc) pos len) as [c st1] eqn:Ec.
-      destruct (get_chunk_spec _ _ _ _ _ (wf_set_orc _ orc W) Ec) as (_ & _ & Hr).
+    - destruct (get_chunk fi (set_orc (m_st m) orc) pos len) as [c st1] eqn:Ec.
+      destruct (get_chunk_spec fi (lt_files _ Hv) _ _ _ _ _ (wf_set_orc _ orc W) Ec) as (_ & _ & Hr).
       destruct c as [c|s| | |]; cbn [fst chunk_err]; try contradiction.
       + destruct Hr as (Hd & _). unfold observe_chunk. now rewrite Hd, collect_Byte.
       + apply Hr.
-    - destruct (get_chunk (set_orc (m_st m) orc) pos len) as [c st1] eqn:Ec.
-      destruct (get_chunk_spec _ _ _ _ _ (wf_set_orc _ orc W) Ec) as (_ & _ & Hr).
+    - destruct (get_chunk fi (set_orc (m_st m) orc) pos len) as [c st1] eqn:Ec.
+      destruct (get_chunk_spec fi (lt_files _ Hv) _ _ _ _ _ (wf_set_orc _ orc W) Ec) as (_ & _ & Hr).
       destruct c as [c|s| | |]; cbn [fst chunk_err]; try contradiction.
       + destruct Hr as (Hd & _). unfold observe_chunk. now rewrite Hd, collect_Byte.
       + apply Hr.
@@ -2033,18 +2215,21 @@ Section Proofs.
 
   (** **** 2. Any range *)
   Theorem fcache_beyond_eof m o :
-    reachable m -> outcome_ok (m_st m) o (fst (step m o)).
-  Proof. intro R. apply step_outcome_ok. now apply reachable_wf. Qed.
+    reachable m -> op_valid o -> outcome_ok (m_st m) o (fst (step m o)).
+  Proof. intros R Hv. apply step_outcome_ok; [exact Hv|]. now apply reachable_wf. Qed.
 
   (** **** 1. Ranges within the file's pages: the answer is the file's bytes
       or an excused BUSY / ERR_SYSTEM; never NODATA, never a crash. *)
   Theorem fcache_policy_irrelevant m o :
-    reachable m -> pceil <= TWO63 -> in_file o ->
+    reachable m -> op_valid o ->
+    (forall f, f < nfiles -> pceilf f <= TWO63) -> in_file o ->
     outcome_ok (m_st m) o (fst (step m o)) /\ fst (step m o) <> OutErr ERR_NODATA.
   Proof.
-    intros R Hsz Hin. pose proof (fcache_beyond_eof m o R) as H. split; [exact H|].
+    intros R Hv Hsz Hin. pose proof (fcache_beyond_eof m o R Hv) as H. split; [exact H|].
     intro E. rewrite E in H.
-    destruct o; cbn [outcome_ok in_file] in *; try contradiction.
+    destruct o as [fi pos orc|h|fi pos len orc|fi pos len orc|fi pos len orc|h|p];
+      cbn [outcome_ok in_file op_valid] in *; try contradiction;
+      try (specialize (Hsz fi Hv)).
     - destruct H as [H _]. lia.
     - destruct H as [H _]. lia.
     - destruct H as [[_ H]|[H _]]; lia.
@@ -2054,7 +2239,7 @@ Section Proofs.
   (** entries the call needs at once in one sub-cache *)
   Definition own_need (o : op) : N :=
     match o with
-    | OpChunk _ len _ | OpChunkHold _ len _ => len / P + 2
+    | OpChunk _ _ len _ | OpChunkHold _ _ len _ => len / P + 2
     | _ => 1
     end.
 
@@ -2074,15 +2259,15 @@ Section Proofs.
   (** With everything released before the call, no mmap failure around, and
       room for the call's own entries, BUSY cannot happen. *)
   Theorem fcache_never_busy_strong m o :
-    reachable m ->
+    reachable m -> op_valid o ->
     (forall w, nr w (m_st m) = 0) ->
     (forall w, own_need o <= capw w (m_st m)) ->
     fst (step m o) <> OutErr ERR_BUSY.
   Proof.
-    intros R Hn Hc E. pose proof (fcache_beyond_eof m o R) as H. rewrite E in H.
+    intros R Hv Hn Hc E. pose proof (fcache_beyond_eof m o R Hv) as H. rewrite E in H.
     pose proof (Hn FB) as N1. pose proof (Hn MM) as N2.
     pose proof (Hc FB) as C1. pose proof (Hc MM) as C2.
-    destruct o as [pos orc|h|pos len orc|pos len orc|pos len orc|h|p];
+    destruct o as [fi pos orc|h|fi pos len orc|fi pos len orc|fi pos len orc|h|p];
       cbn [outcome_ok op_oracle own_need] in *.
     - cbn [op_err_ok] in H. unfold capw, nr in *. sproj. lia.
     - cbn [FcacheChunk.step] in E.
@@ -2102,31 +2287,31 @@ Section Proofs.
   (** the statement as first given (the [quiet] hypothesis is no longer needed:
       since a failed mmap gives its reference back, see [fcache_never_busy_strong]) *)
   Theorem fcache_never_busy_when_balanced m o :
-    reachable m ->
+    reachable m -> op_valid o ->
     quiet (set_orc (m_st m) (op_oracle o)) ->
     (forall w, nr w (m_st m) = 0) ->
     (forall w, own_need o <= capw w (m_st m)) ->
     fst (step m o) <> OutErr ERR_BUSY.
-  Proof. intros R _. now apply fcache_never_busy_strong. Qed.
+  Proof. intros R Hv _. now apply fcache_never_busy_strong. Qed.
 
   (** **** 3. Every path gives back the references (and allocations) it took,
       also when an mmap fails (see [fcache_mmap_failure_releases_ref]). *)
   Theorem fcache_refs_balanced_strong m o r m' :
-    reachable m ->
-    (match o with OpPread _ _ _ | OpChunk _ _ _ => True | _ => False end) ->
+    reachable m -> op_valid o ->
+    (match o with OpPread _ _ _ _ | OpChunk _ _ _ _ => True | _ => False end) ->
     step m o = (r, m') ->
     (forall w k, rc w k (m_st m') = rc w k (m_st m)) /\
     st_live (m_st m') = st_live (m_st m) /\
     m_fces m' = m_fces m /\ m_chunks m' = m_chunks m.
   Proof.
-    intros R Ho H. pose proof (reachable_wf m R) as W.
-    destruct o as [pos orc|h|pos len orc|pos len orc|pos len orc|h|p]; try contradiction;
-      cbn [FcacheChunk.step op_oracle] in *.
-    - destruct (pread (set_orc (m_st m) orc) pos len) as [r1 st1] eqn:Ep.
-      destruct (pread_spec _ _ _ _ _ (wf_set_orc _ orc W) Ep) as (_ & L & Hrc & _).
+    intros R Hv Ho H. pose proof (reachable_wf m R) as W.
+    destruct o as [fi pos orc|h|fi pos len orc|fi pos len orc|fi pos len orc|h|p]; try contradiction;
+      cbn [FcacheChunk.step op_oracle op_valid] in *.
+    - destruct (pread fi (set_orc (m_st m) orc) pos len) as [r1 st1] eqn:Ep.
+      destruct (pread_spec fi (lt_files _ Hv) _ _ _ _ _ (wf_set_orc _ orc W) Ep) as (_ & L & Hrc & _).
       injection H as <- <-. cbn [m_st m_fces m_chunks]. splits; auto.
-    - destruct (get_chunk (set_orc (m_st m) orc) pos len) as [c st1] eqn:Ec.
-      destruct (get_chunk_spec _ _ _ _ _ (wf_set_orc _ orc W) Ec) as (_ & _ & Hr).
+    - destruct (get_chunk fi (set_orc (m_st m) orc) pos len) as [c st1] eqn:Ec.
+      destruct (get_chunk_spec fi (lt_files _ Hv) _ _ _ _ _ (wf_set_orc _ orc W) Ec) as (_ & _ & Hr).
       destruct c as [c|s| | |]; try contradiction; injection H as <- <-;
         cbn [m_st m_fces m_chunks]; destruct Hr as (_ & Hrc & L); splits; auto.
   Qed.
@@ -2134,21 +2319,22 @@ Section Proofs.
   (** the statement as first given (its [quiet] hypothesis, "no mmap failed",
       is not needed any more: [fcache_refs_balanced_strong]) *)
   Theorem fcache_refs_balanced m o r m' :
-    reachable m ->
-    (match o with OpPread _ _ _ | OpChunk _ _ _ => True | _ => False end) ->
+    reachable m -> op_valid o ->
+    (match o with OpPread _ _ _ _ | OpChunk _ _ _ _ => True | _ => False end) ->
     quiet (set_orc (m_st m) (op_oracle o)) ->
     step m o = (r, m') ->
     (forall w k, rc w k (m_st m') = rc w k (m_st m)) /\
     st_live (m_st m') = st_live (m_st m) /\
     m_fces m' = m_fces m /\ m_chunks m' = m_chunks m.
-  Proof. intros R Ho _. now apply fcache_refs_balanced_strong. Qed.
+  Proof. intros R Hv Ho _. now apply fcache_refs_balanced_strong. Qed.
 
   (** ... also when [fcache_get_chunk] fails, whatever failed: nothing is held afterwards *)
-  Theorem fcache_failed_get_chunk_balanced st pos len s st' :
-    wf st -> get_chunk st pos len = (ChErr s, st') ->
+  Theorem fcache_failed_get_chunk_balanced fidx st pos len s st' :
+    fidx < nfiles -> wf st -> get_chunk fidx st pos len = (ChErr s, st') ->
     (forall w k, rc w k st' = rc w k st) /\ st_live st' = st_live st.
   Proof.
-    intros W H. destruct (get_chunk_spec _ _ _ _ _ W H) as (_ & _ & _ & Hrc & L).
+    intros Hf W H.
+    destruct (get_chunk_spec fidx (lt_files _ Hf) _ _ _ _ _ W H) as (_ & _ & _ & Hrc & L).
     split; auto.
   Qed.
 
@@ -2157,25 +2343,25 @@ Section Proofs.
       part of [fcache_beyond_eof] (the outcome is never [OutFuel], [OutOOB],
       [OutSigbus]); stated on its own for reference. *)
   Corollary fcache_no_crash m o :
-    reachable m ->
-    (match o with OpGet _ _ | OpPread _ _ _ | OpChunk _ _ _ | OpChunkHold _ _ _ => True
+    reachable m -> op_valid o ->
+    (match o with OpGet _ _ _ | OpPread _ _ _ _ | OpChunk _ _ _ _ | OpChunkHold _ _ _ _ => True
              | _ => False end) ->
     crashed (fst (step m o)) = false.
   Proof.
-    intros R Ho. pose proof (fcache_beyond_eof m o R) as H.
+    intros R Hv Ho. pose proof (fcache_beyond_eof m o R Hv) as H.
     destruct o; try contradiction; cbn [outcome_ok] in H;
       destruct (fst (step _ _)); try contradiction; reflexivity.
   Qed.
 
   (** NODATA does happen beyond the file's pages when the policy in force is ALWAYS *)
-  Lemma fcache_nodata_always st pos len :
-    st_policy st = ALWAYS -> pceil <= pos -> 0 < len ->
-    fst (pread st pos len) = OutErr ERR_NODATA.
+  Lemma fcache_nodata_always fidx st pos len :
+    st_policy st = ALWAYS -> pceilf fidx <= pos -> 0 < len ->
+    fst (pread fidx st pos len) = OutErr ERR_NODATA.
   Proof.
     intros Hp Hpos Hlen. unfold fcache_pread. cbn [FcacheChunk.pread_loop].
     destruct (N.eqb_spec len 0); [lia|].
     unfold fcache_get. rewrite Hp. unfold fcache_get_mmap.
-    destruct (N.leb_spec filesz (align_down pos P)) as [L|L]; [reflexivity|].
+    destruct (N.leb_spec (fsz fidx) (align_down pos P)) as [L|L]; [reflexivity|].
     apply below_ceil in L. lia.
   Qed.
 
@@ -2184,26 +2370,31 @@ Section Proofs.
   (** an operation that returns what it takes and meets no mmap failure *)
   Definition self_contained (o : op) : Prop :=
     match o with
-    | OpPread _ _ orc | OpChunk _ _ orc => ~ In true (o_mf orc)
+    | OpPread f _ _ orc | OpChunk f _ _ orc => f < nfiles /\ ~ In true (o_mf orc)
     | OpPolicy _ => True
     | _ => False
     end.
+
+  Lemma self_contained_valid o : self_contained o -> op_valid o.
+  Proof. destruct o; cbn; tauto. Qed.
 
   Lemma self_contained_step m o r m' :
     wf (m_st m) -> mm_clean (m_st m) -> self_contained o -> step m o = (r, m') ->
     mm_clean (m_st m') /\ (forall w k, rc w k (m_st m') = rc w k (m_st m)).
   Proof.
     intros W C Ho H.
-    destruct o as [pos orc|h|pos len orc|pos len orc|pos len orc|h|p]; try contradiction;
+    destruct o as [fi pos orc|h|fi pos len orc|fi pos len orc|fi pos len orc|h|p]; try contradiction;
       cbn [FcacheChunk.step self_contained] in *.
-    - assert (Q : quiet (set_orc (m_st m) orc)) by (split; [exact C|exact Ho]).
-      destruct (pread (set_orc (m_st m) orc) pos len) as [r1 st1] eqn:Ep.
-      destruct (pread_spec _ _ _ _ _ (wf_set_orc _ orc W) Ep) as (F & _ & Hrc & _).
+    - destruct Ho as [Hv Ho].
+      assert (Q : quiet (set_orc (m_st m) orc)) by (split; [exact C|exact Ho]).
+      destruct (pread fi (set_orc (m_st m) orc) pos len) as [r1 st1] eqn:Ep.
+      destruct (pread_spec fi (lt_files _ Hv) _ _ _ _ _ (wf_set_orc _ orc W) Ep) as (F & _ & Hrc & _).
       injection H as <- <-. cbn [m_st]. split; [apply (frame_quiet _ _ F Q)|].
       intros w k. now rewrite Hrc.
-    - assert (Q : quiet (set_orc (m_st m) orc)) by (split; [exact C|exact Ho]).
-      destruct (get_chunk (set_orc (m_st m) orc) pos len) as [c st1] eqn:Ec.
-      destruct (get_chunk_spec _ _ _ _ _ (wf_set_orc _ orc W) Ec) as (F & _ & Hr).
+    - destruct Ho as [Hv Ho].
+      assert (Q : quiet (set_orc (m_st m) orc)) by (split; [exact C|exact Ho]).
+      destruct (get_chunk fi (set_orc (m_st m) orc) pos len) as [c st1] eqn:Ec.
+      destruct (get_chunk_spec fi (lt_files _ Hv) _ _ _ _ _ (wf_set_orc _ orc W) Ec) as (F & _ & Hr).
       pose proof (frame_quiet _ _ F Q) as [C1 _].
       destruct c as [c|s| | |]; try contradiction; injection H as <- <-;
         cbn [m_st]; destruct Hr as (_ & Hrc & _).
@@ -2225,7 +2416,7 @@ Section Proofs.
     - inversion Hh as [|? ? Ho Hh']; subst.
       destruct (step m o) as [r m1] eqn:Es.
       destruct (self_contained_step _ _ _ _ W C Ho Es) as [C1 R1].
-      pose proof (step_wf _ _ _ _ W Es) as W1.
+      pose proof (step_wf _ _ _ _ (self_contained_valid _ Ho) W Es) as W1.
       destruct (crashed r).
       + injection H as <- <-. auto.
       + destruct (run m1 h) as [rs m2] eqn:Er. injection H as <- <-.
@@ -2236,7 +2427,14 @@ Section Proofs.
   (** operations that keep nothing: whatever their oracles say (mmap failures
       included) the reference counts are what they were *)
   Definition keeps_nothing (o : op) : Prop :=
-    match o with OpPread _ _ _ | OpChunk _ _ _ | OpPolicy _ => True | _ => False end.
+    match o with
+    | OpPread f _ _ _ | OpChunk f _ _ _ => f < nfiles
+    | OpPolicy _ => True
+    | _ => False
+    end.
+
+  Lemma keeps_nothing_valid o : keeps_nothing o -> op_valid o.
+  Proof. destruct o; cbn; tauto. Qed.
 
   Lemma keeps_nothing_run h : forall m outs m',
     wf (m_st m) -> Forall keeps_nothing h -> run m h = (outs, m') ->
@@ -2246,15 +2444,15 @@ Section Proofs.
     - injection H as <- <-. auto.
     - inversion Hh as [|? ? Ho Hh']; subst.
       destruct (step m o) as [r m1] eqn:Es.
-      pose proof (step_wf _ _ _ _ W Es) as W1.
+      pose proof (step_wf _ _ _ _ (keeps_nothing_valid _ Ho) W Es) as W1.
       assert (R1 : forall w k, rc w k (m_st m1) = rc w k (m_st m)).
-      { destruct o as [pos orc|hd|pos len orc|pos len orc|pos len orc|hd|p]; try contradiction;
-          cbn [FcacheChunk.step] in Es.
-        - destruct (pread (set_orc (m_st m) orc) pos len) as [r1 st1] eqn:Ep.
-          destruct (pread_spec _ _ _ _ _ (wf_set_orc _ orc W) Ep) as (_ & _ & Hrc & _).
+      { destruct o as [fi pos orc|hd|fi pos len orc|fi pos len orc|fi pos len orc|hd|p]; try contradiction;
+          cbn [FcacheChunk.step keeps_nothing] in Es, Ho; rename Ho into Hv.
+        - destruct (pread fi (set_orc (m_st m) orc) pos len) as [r1 st1] eqn:Ep.
+          destruct (pread_spec fi (lt_files _ Hv) _ _ _ _ _ (wf_set_orc _ orc W) Ep) as (_ & _ & Hrc & _).
           injection Es as <- <-. exact Hrc.
-        - destruct (get_chunk (set_orc (m_st m) orc) pos len) as [c st1] eqn:Ec.
-          destruct (get_chunk_spec _ _ _ _ _ (wf_set_orc _ orc W) Ec) as (_ & _ & Hr).
+        - destruct (get_chunk fi (set_orc (m_st m) orc) pos len) as [c st1] eqn:Ec.
+          destruct (get_chunk_spec fi (lt_files _ Hv) _ _ _ _ _ (wf_set_orc _ orc W) Ec) as (_ & _ & Hr).
           destruct c as [c|s| | |]; try contradiction; injection Es as <- <-;
             cbn [m_st]; apply Hr.
         - injection Es as <- <-. now intros [|]. }
@@ -2263,6 +2461,10 @@ Section Proofs.
       + destruct (run m1 h) as [rs m2] eqn:Er. injection H as <- <-.
         intros w k. rewrite (IH _ _ _ W1 Hh' Er). apply R1.
   Qed.
+
+  Lemma Forall_valid (Q : op -> Prop) h :
+    (forall o, Q o -> op_valid o) -> Forall Q h -> Forall op_valid h.
+  Proof. intros HQ H. induction H; constructor; auto. Qed.
 
   (** after such a history nothing is referenced, whatever failed on the way *)
   Corollary fcache_balanced_history_strong cap_mm cap_fb h outs m :
@@ -2273,7 +2475,7 @@ Section Proofs.
     intros Hh H.
     assert (W0 : wf (m_st (init_machine cap_mm cap_fb))) by apply wf_init.
     pose proof (keeps_nothing_run h _ _ _ W0 Hh H) as R.
-    destruct (run_keeps h _ _ _ W0 H) as [W K]. split.
+    destruct (run_keeps h _ _ _ (Forall_valid _ h keeps_nothing_valid Hh) W0 H) as [W K]. split.
     - intro w. rewrite (nr_ext _ _ W W0 R w). now destruct w.
     - split; [apply (K MM)|apply (K FB)].
   Qed.
@@ -2289,16 +2491,18 @@ Section Proofs.
     assert (W0 : wf (m_st (init_machine cap_mm cap_fb))) by apply wf_init.
     assert (C0 : mm_clean (m_st (init_machine cap_mm cap_fb))) by constructor.
     destruct (self_contained_run h _ _ _ W0 C0 Hh H) as [C R].
-    pose proof (run_wf h _ _ _ W0 H) as W.
+    destruct (run_keeps h _ _ _ (Forall_valid _ h self_contained_valid Hh) W0 H) as [W K].
     split; [exact C|]. split.
     - intro w. rewrite (nr_ext _ _ W W0 R w). now destruct w.
-    - destruct (run_keeps h _ _ _ W0 H) as [_ K]. split; [apply (K MM)|apply (K FB)].
+    - split; [apply (K MM)|apply (K FB)].
   Qed.
 End Proofs.
 
 (** ** Concrete witnesses (16-byte pages) *)
 
 Definition ex_file (o : N) : N := (o * 31 + 5) mod 256.
+(** a set of files with different contents *)
+Definition ex_files (f o : N) : N := (o * 31 + 5 + 101 * f) mod 256.
 
 (** 4. The unrepaired [fcache_get_mmap] ([clamp_eof = false]: an mmap'ed entry
     reports [mmapsz - off] bytes regardless of EOF): a 10-byte file, 64-byte
@@ -2307,29 +2511,46 @@ Definition ex_file (o : N) : N := (o * 31 + 5) mod 256.
 Example fcache_unrepaired_sigbus :
   exists filesz pos len pol,
     pos < filesz /\ (pol = ALWAYS \/ pol = TRY) /\
-    fst (step 4 2 filesz ex_file false
+    fst (step 4 2 (fun _ => filesz) (fun _ => ex_file) false true
               (mkMachine (set_policy (init_state 2 2) pol) [] [])
-              (OpPread pos len no_oracle)) = OutSigbus.
+              (OpPread 0 pos len no_oracle)) = OutSigbus.
 Proof.
   exists 10, 0, 20, TRY. split; [reflexivity|]. split; [now right|]. vm_compute. reflexivity.
 Qed.
 
 (** ... the repaired code answers the same call with the file's bytes and zeros *)
 Example fcache_repaired_same_call :
-  fst (step 4 2 10 ex_file true (init_machine 2 2) (OpPread 0 20 no_oracle)) =
+  fst (step 4 2 (fun _ => 10) (fun _ => ex_file) true true (init_machine 2 2)
+            (OpPread 0 0 20 no_oracle)) =
   OutData (slice 10 ex_file 0 20) GEmpty.
 Proof. vm_compute. reflexivity. Qed.
+
+(** The file index is part of the key of the read-fallback cache for a reason:
+    the variant of [fcache_get_read] that forgets it ([fb_key_has_fidx = false])
+    answers a read of file 1 with the bytes of file 0 once the page at the same
+    offset of file 0 is cached (policy NEVER, two 16-byte files); the code as it
+    is reads file 1.  [fcache_key_injective_P] / [key_decode_P] is what fails. *)
+Example fcache_fb_key_without_fidx_refuted :
+  let fsz := fun _ : N => 16 in
+  let h := [OpPolicy NEVER; OpPread 0 0 4 no_oracle] in
+  let obs := OpPread 1 0 4 no_oracle in
+  let answer key := fst (step 4 0 fsz ex_files true key
+                              (snd (run 4 0 fsz ex_files true key (init_machine 2 2) h)) obs) in
+  answer false = OutData (slice 16 (ex_files 0) 0 4) GEmpty /\
+  answer true = OutData (slice 16 (ex_files 1) 0 4) GEmpty /\
+  slice 16 (ex_files 0) 0 4 <> slice 16 (ex_files 1) 0 4.
+Proof. vm_compute. repeat split; try reflexivity. discriminate. Qed.
 
 (** 2. Beyond the file's pages the answer does depend on the history, through
     the latch of TRY_ONCE: the same call after two histories that differ only
     in where the first read went. *)
 Example fcache_try_once_latch_visible_beyond_eof :
-  let obs := OpPread 16 1 no_oracle in
-  let after h := snd (run 4 0 16 ex_file true (init_machine 2 2) h) in
-  let m1 := after [OpPolicy TRY_ONCE; OpPread 0 1 no_oracle] in
-  let m2 := after [OpPolicy TRY_ONCE; OpPread 16 1 no_oracle] in
-  fst (step 4 0 16 ex_file true m1 obs) = OutErr ERR_NODATA /\
-  fst (step 4 0 16 ex_file true m2 obs) = OutData [0] GEmpty.
+  let obs := OpPread 0 16 1 no_oracle in
+  let after h := snd (run 4 0 (fun _ => 16) (fun _ => ex_file) true true (init_machine 2 2) h) in
+  let m1 := after [OpPolicy TRY_ONCE; OpPread 0 0 1 no_oracle] in
+  let m2 := after [OpPolicy TRY_ONCE; OpPread 0 16 1 no_oracle] in
+  fst (step 4 0 (fun _ => 16) (fun _ => ex_file) true true m1 obs) = OutErr ERR_NODATA /\
+  fst (step 4 0 (fun _ => 16) (fun _ => ex_file) true true m2 obs) = OutData [0] GEmpty.
 Proof. vm_compute. split; reflexivity. Qed.
 
 (** 3. When mmap fails, [fcache_get_mmap] caches MAP_FAILED and gives its
@@ -2337,7 +2558,8 @@ Proof. vm_compute. split; reflexivity. Qed.
     succeeds through the fallback and nothing stays referenced. *)
 Example fcache_mmap_failure_releases_ref :
   let orc := mkOracle [] [true] [] [] [] in
-  let '(r, m1) := step 4 0 16 ex_file true (init_machine 2 2) (OpPread 0 1 orc) in
+  let '(r, m1) := step 4 0 (fun _ => 16) (fun _ => ex_file) true true (init_machine 2 2)
+                       (OpPread 0 0 1 orc) in
   r = OutData [ex_file 0] GEmpty /\ m_fces m1 = [] /\ m_chunks m1 = [] /\
   refcount 0 (st_mm (m_st m1)) = 0 /\ refsum (st_mm (m_st m1)) = 0 /\
   lookup 0 (s_ents (st_mm (m_st m1))) = Some (mkEntry 0 MapFailed 0).
@@ -2345,33 +2567,38 @@ Proof. vm_compute. repeat split; reflexivity. Qed.
 
 (** The cached MAP_FAILED still answers: under ALWAYS a later call without any
     failure of its own gets ERR_SYSTEM (the [~ mm_clean] case of [excuse]) as
-    long as the replacement keeps the entry (here: the oracle [[false]] keeps
-    it, and the block is hit anyway) -- and once the replacement has dropped
-    it (a miss on another block with the oracle "drop"), the same call reads
-    the file. *)
+    long as the replacement keeps the entry -- and once the replacement has
+    dropped it (a miss on another block with the oracle "drop"), the same call
+    reads the file. *)
 Example fcache_mmap_failure_is_sticky :
   let fail := mkOracle [] [true] [] [] [] in
-  let m := snd (run 4 0 32 ex_file true (init_machine 2 2)
-                    [OpPolicy ALWAYS; OpPread 0 1 fail]) in
-  let m' := snd (run 4 0 32 ex_file true m [OpPread 16 1 (mkOracle [[true]] [] [] [] [])]) in
-  fst (step 4 0 32 ex_file true m (OpPread 0 1 no_oracle)) = OutErr ERR_SYSTEM /\
-  fst (step 4 0 32 ex_file true m' (OpPread 0 1 no_oracle)) = OutData [ex_file 0] GEmpty.
+  let stp := step 4 0 (fun _ => 32) (fun _ => ex_file) true true in
+  let rn := run 4 0 (fun _ => 32) (fun _ => ex_file) true true in
+  let m := snd (rn (init_machine 2 2) [OpPolicy ALWAYS; OpPread 0 0 1 fail]) in
+  let m' := snd (rn m [OpPread 0 16 1 (mkOracle [[true]] [] [] [] [])]) in
+  fst (stp m (OpPread 0 0 1 no_oracle)) = OutErr ERR_SYSTEM /\
+  fst (stp m' (OpPread 0 0 1 no_oracle)) = OutData [ex_file 0] GEmpty.
 Proof. vm_compute. split; reflexivity. Qed.
 
-(** a history with held entries, a policy change and a multi-page chunk:
-    the hypotheses of the theorems are met by non-trivial states *)
+(** a history over two files with held entries, a policy change, the same block
+    offsets in both files and a multi-page chunk: the hypotheses of the theorems
+    are met by non-trivial states *)
 Example fcache_nonvacuous :
-  let h := [OpGet 3 no_oracle; OpPolicy NEVER; OpPread 10 30 no_oracle;
-            OpChunkHold 0 40 (mkOracle [] [] [] [true; true] []); OpPut 0] in
-  let m := snd (run 4 1 50 ex_file true (init_machine 6 6) h) in
-  reachable 4 1 50 ex_file m /\
-  in_file 4 50 (OpChunk 5 50 no_oracle) /\
-  fst (step 4 1 50 ex_file true m (OpChunk 5 50 no_oracle)) =
-  OutData (slice 50 ex_file 5 50) Copied /\
+  let fsz := fun f : N => if f =? 0 then 50 else 40 in
+  let h := [OpGet 0 3 no_oracle; OpPolicy NEVER; OpPread 1 10 30 no_oracle;
+            OpPread 0 10 30 no_oracle;
+            OpChunkHold 0 0 40 (mkOracle [] [] [] [true; true] []); OpPut 0] in
+  let m := snd (run 4 1 fsz ex_files true true (init_machine 6 6) h) in
+  reachable 4 1 2 fsz ex_files m /\
+  op_valid 2 (OpChunk 1 5 40 no_oracle) /\
+  in_file 4 fsz (OpChunk 1 5 40 no_oracle) /\
+  fst (step 4 1 fsz ex_files true true m (OpChunk 1 5 40 no_oracle)) =
+  OutData (slice 40 (ex_files 1) 5 40) Copied /\
   nref (st_fb (m_st m)) = 3.
 Proof.
   split; [|vm_compute; repeat split; try reflexivity; discriminate].
-  exists 6, 6. eexists. eexists. apply surjective_pairing.
+  exists 6, 6. eexists. eexists. split; [|apply surjective_pairing].
+  repeat (apply Forall_cons || apply Forall_nil); cbn; try reflexivity; exact I.
 Qed.
 
 Print Assumptions fcache_policy_irrelevant.
@@ -2386,3 +2613,6 @@ Print Assumptions fcache_mmap_failure_releases_ref.
 Print Assumptions fcache_refs_balanced_strong.
 Print Assumptions fcache_never_busy_strong.
 Print Assumptions fcache_balanced_history_strong.
+Print Assumptions fcache_key_injective_P.
+Print Assumptions fcache_key_injective_M.
+Print Assumptions fcache_fb_key_without_fidx_refuted.
